@@ -137,8 +137,11 @@ func genC06(r *rand.Rand, n int, emit func(string)) {
 			hash = opb.B64E(raw)
 			label = "digest-bitflip"
 		case 13: // not canonicalizable value (scalar at top level / malformed text)
-			text = pick(r, []string{"1", `"x"`, "null", "{", `{"a":1,"a":2}`})
+			text = pick(r, []string{"1", `"x"`, "null", "{", `{"a":1,"a":2}`, "true", "1.5", `"abc"`})
 			label = "bad-value"
+			if text != "{" && text[0] != '{' {
+				label = "scalar-value" // a JSON value all the same
+			}
 		}
 		codes := [][]uint64{{18}, {19}, {18, 19}, {19, 18}, {}, {useCode}, {0x11, 18}}[r.Intn(7)]
 		emit(proto.Line("mh", M{"value": proto.Hex([]byte(text)), "code": useCode, "hash": hash, "codes": codes, "ns": "did:" + ident(r, 4), "label": label}))
